@@ -89,6 +89,17 @@ def gen_cases(rng, tier):
         cases.append({"pos": [enc(Fraction(x)) for x in pos], "neg": [enc(Fraction(x)) for x in neg], "ep": rng.choice([0, 0, 3]),
                       "en": rng.choice([0, 2]), "sc": sc, "ec": ec, "exact": False, "kind": kind + "-narrow-int", "dtype": dt,
                       "warmup": [], "a": enc(Fraction(1, 2)), "b": enc(Fraction(1))})
+    # finely spaced scores of moderate magnitude (0.5 + k * 2^-34, about 6e-11 apart): comparisons of thresholds must stay
+    # exact — a tolerance of 1e-8 in score units merges hundreds of them
+    for j in range({"quick": 10, "thorough": 80, "search": 30}[tier]):
+        n = rng.randint(12, 40)
+        ks = rng.sample(range(1, 4096), n)
+        vals = [Fraction(1, 2) + Fraction(k, 2 ** 34) for k in ks]
+        npos = rng.randint(n // 3, 2 * n // 3)
+        sc, ec = rng.choice(CONFIGS)
+        cases.append({"pos": [enc(x) for x in vals[:npos]], "neg": [enc(x) for x in vals[npos:]], "ep": rng.choice([0, 0, 2]),
+                      "en": rng.choice([0, 0, 3]), "sc": sc, "ec": ec, "exact": False, "kind": "overlap-fine", "dtype": "float64",
+                      "warmup": [], "a": enc(Fraction(2)), "b": enc(Fraction(rng.randint(-4, 4), 2))})
     return cases
 
 
